@@ -1200,9 +1200,13 @@ def _inline_custom_loop(ck, L, specs, dist, calls, only, reqs, metas):
 
 
 def run(ck: core.Check):
+    from harness.props.c11 import inventory
+
+    source_changed = inventory(ck, "_adapt.py")
     ck.lean(["SpoxModel.Props.C18"], audit="SpoxModel.Audit.C18")
     if ck.thorough:
-        ck.leanchecker(["SpoxModel.Props.C18"])
+        ck.leanchecker(["SpoxModel.Props.C18", "SpoxModel.Model.Custom", "SpoxModel.Model.CustomInline",
+                        "SpoxModel.Generated.AdaptAttrInventory"])
     try:
         env = Env(ck)
     except Exception as e:  # noqa: BLE001
@@ -1278,7 +1282,8 @@ def run(ck: core.Check):
     except Exception as e:  # noqa: BLE001
         ck.broken("correspondence", "relabelling cases not observable", f"{type(e).__name__}: {e}")
     # a custom operator inside an inlined model, next to default-domain nodes that need opset adaptation
-    inline_custom_cases(ck, rng, stats, ck.pick(120, 1200), reqs=reqs, metas=metas)
+    # escalation: a changed `_adapt.py` gets the larger count even in the quick tier
+    inline_custom_cases(ck, rng, stats, ck.pick(120, 1200) if not source_changed else 600, reqs=reqs, metas=metas)
     # execution
     for position in ("top", "if", "twice"):
         for k in (2.5, -0.75):
@@ -1334,6 +1339,9 @@ def run(ck: core.Check):
 
 def replay(ck: core.Check, doc) -> bool:
     if doc.get("kind") == "obligation" or "case" not in doc:
+        from harness.props.c11 import inventory
+
+        inventory(ck, "_adapt.py")
         res = ck.lean(["SpoxModel.Props.C18"], audit="SpoxModel.Audit.C18")
         return not res.ok
     env = Env(ck)
